@@ -56,6 +56,19 @@ void verif_wrap_event(const char *ev, long thr, int ccontig, int fcontig, int ty
   fflush(verif_fp);
 }
 
+/* state of the static work area as partition() is about to use it: shape, size, and a checksum of the
+   meaningful entries of the neighbour table (count + that many neighbours per bin) */
+static void verif_static_state(void) {
+  int n, k, h = 7;
+  if (!verif_on) return;
+  for (n = 0; n < nspec; n++) {
+    h = (h * 31 + neigh[8 + 9 * n]) % 65521;
+    for (k = 0; k < neigh[8 + 9 * n] && k < 8; k++)
+      h = (h * 31 + neigh[k + 9 * n] + 1) % 65521;
+  }
+  verif_event("pinit", mk, mth, nspec, h, NULL, 0);
+}
+
 
 void ptnghb();
 void ptsort(int iihmax, int nnspec);
@@ -109,6 +122,7 @@ void partition(float * spec,
   verif_init();
   verif_event("enter", nk, nth, ihmax, !(mk == nk && mth == nth), NULL, 0);
   partinit(nk, nth);
+  verif_static_state();
 
   if ( nk != mk || nth != mth ) {
         printf("Error: partinit must be called with correct spectral dimensions\n");
